@@ -114,3 +114,15 @@ def call_np(f, *args):
 def shim_arrays(ns, pt):
     s, p = np_arrays(ns, pt)
     return mpshim.vec(s), mpshim.vec(p)
+
+
+def load_or_skip(text: str):
+    """Load a generated model.  A rejection is not a violation of any code-generation property
+    (they quantify over texts the loader accepts); it is counted as inconclusive."""
+    from . import backends as B
+    from .runner import Inconclusive
+
+    try:
+        return B.load(text)
+    except Exception as ex:
+        raise Inconclusive(f"load-rejected:{type(ex).__name__}")
